@@ -125,7 +125,7 @@ def gen_stock_spec(rng, lead=None):
             spec['g_ln'] = rng.choice(['runonce', 'lnbgs', 'lnbgs', 'krylov', 'direct-noasm'] +
                                       ([] if has_mf else ['direct-asm']))
     spec['asm_type'] = rng.choice(['dense', 'csc'])
-    spec['rhs_checking'] = rng.random() < 0.3
+    spec["rhs_checking"] = rng.random() < 0.4
     moves = [m for m in MOVES_STOCK if m != 'statics' or any(k in JAX_KINDS for k in kinds)]
     if not any(b.get('disc') for b in blocks):
         moves.remove('discrete')
